@@ -425,3 +425,50 @@ def c08_cases(seed=0):
     out.append(("I9-hierarchy-wildcard", dict(hierarchy=1), hm, {"all/p1/op/u": sig()}))
     out.append(("I10-coarse-input-adaptive-grid", dict(coarse=True), single, {"p/op/u": sig(n=9)}))
     return out
+
+
+def c16_cases(seed=0):
+    """(tag, features, population spec)."""
+    import numpy as np
+    rng = np.random.default_rng(seed)
+    out = []
+    pop = op_li("op", x="r", ins=("r_in",), tau=2.0, x0=0.4, in_defaults={"r_in": 0.0})
+    tg = op_li("tg", x="v", ins=("u", "w"), tau=1.0, x0=0.1, in_defaults={"u": 0.0, "w": 0.0})
+    ops = {"op": pop, "tg": tg}
+
+    def W(nt, ns, sparse=0.4, signed=True):
+        a = np.round(rng.uniform(-1 if signed else 0.1, 1, size=(nt, ns)), 2)
+        mask = rng.uniform(size=(nt, ns)) < sparse
+        a[mask] = 0.0
+        if not a.any():
+            a[0, 0] = 0.5
+        return a.tolist()
+
+    def het(n, lo, hi):
+        return np.round(rng.uniform(lo, hi, size=n), 2).tolist()
+    for n in (1, 2, 3, 5):
+        ps = dict(ops=ops, pops={"a": dict(ops=["op"], n=n, params={"op/tau": het(n, 1.0, 3.0), "op/r": het(n, -0.5, 0.5)})},
+                  conns=[dict(src="a/op/r", tgt="a/op/r_in", W=W(n, n))])
+        out.append((f"P1-single-pop-n{n}-signed-sparse", dict(n=n), ps))
+    ps = dict(ops=ops, pops={"a": dict(ops=["op"], n=3, params={"op/tau": het(3, 1.0, 3.0), "op/r": het(3, -0.5, 0.5)}),
+                             "b": dict(ops=["tg"], n=2, params={"tg/v": het(2, -0.5, 0.5), "tg/tau": 1.5})},
+              conns=[dict(src="a/op/r", tgt="b/tg/u", W=[[0.5, -1.0, 0.0], [-0.3, 0.0, 0.8]]),
+                     dict(src="b/tg/v", tgt="a/op/r_in", W=W(3, 2)), dict(src="a/op/r", tgt="b/tg/w", W=W(2, 3, 0.2))])
+    out.append(("P2-two-pops-nonsquare-signed", dict(nonsquare=True), ps))
+    ps = dict(ops=ops, pops={"a": dict(ops=["op"], n=4, params={"op/r": het(4, -0.5, 0.5)}),
+                             "b": dict(ops=["tg"], n=3, params={"tg/v": het(3, -0.5, 0.5)})},
+              conns=[dict(src="a/op/r", tgt="b/tg/u", W=0.7), dict(src="b/tg/v", tgt="a/op/r_in", W=-0.25)])
+    out.append(("P3-scalar-weights-global-coupling", dict(scalar=True), ps))
+    ps = dict(ops=ops, pops={"hub": dict(ops=["op"], n=1, params={"op/tau": 0.5, "op/r": 0.5}),
+                             "b": dict(ops=["tg"], n=3, params={"tg/v": het(3, -0.5, 0.5)})},
+              conns=[dict(src="hub/op/r", tgt="hub/op/r_in", W=[[0.3]]), dict(src="hub/op/r", tgt="b/tg/u", W=[[1.0], [-0.5], [0.25]])])
+    out.append(("P4-one-unit-hub-with-params", dict(n1_params=True), ps))
+    for d, tagd in ((0.3, "0.3"), (0.2, "0.2")):
+        ps = dict(ops=ops, pops={"a": dict(ops=["op"], n=3, params={"op/tau": het(3, 1.0, 3.0), "op/r": het(3, -0.5, 0.5)})},
+                  conns=[dict(src="a/op/r", tgt="a/op/r_in", W=W(3, 3), d=d)])
+        out.append((f"P5-discrete-delay-{tagd}", dict(delay=d, dt=0.1), ps))
+    for d, s_ in ((0.3, 0.1), (0.5, 0.3), (0.4, 0.2)):
+        ps = dict(ops=ops, pops={"a": dict(ops=["op"], n=3, params={"op/tau": het(3, 1.0, 3.0), "op/r": het(3, -0.5, 0.5)})},
+                  conns=[dict(src="a/op/r", tgt="a/op/r_in", W=W(3, 3), d=d, s=s_)])
+        out.append((f"P6-gamma-delay-{d}-{s_}", dict(delay=d, spread=s_, dt=0.01), ps))
+    return out
